@@ -65,6 +65,7 @@ func cmdRun(args []string) {
 	mapAll := fs.Bool("maporder", false, "explore all map iteration orders (small maps)")
 	schedAll := fs.Bool("schedall", false, "explore all scheduling choices at blocking points")
 	preempt := fs.Int("preempt", 0, "preemption bound")
+	maxSched := fs.Int("maxsched", 0, "scheduling point bound")
 	schedYield := fs.Bool("schedyield", false, "explore all choices at explicit yields only")
 	summarize := fs.String("summarize", "", "comma-separated function names to summarise")
 	prefix := fs.String("prefix", "", "decision prefix")
@@ -102,7 +103,7 @@ func cmdRun(args []string) {
 		prog.summarize[s] = true
 	}
 	cfg := &RunConfig{Entry: *entry, MaxSteps: *maxSteps, MaxPaths: *maxPaths, Workers: *workers, TimeoutS: *timeout,
-		SolverMs: *solverMs, Trace: *trace, SolverLog: *solverLog, MapOrderAll: *mapAll, MapOrderMax: 3, SchedAll: *schedAll, SchedYield: *schedYield,
+		SolverMs: *solverMs, Trace: *trace, SolverLog: *solverLog, MapOrderAll: *mapAll, MapOrderMax: 3, SchedAll: *schedAll, SchedYield: *schedYield, MaxSchedPoints: *maxSched,
 		Preempt: *preempt, Prefix: parsePrefix(*prefix), StopOnViolation: *stopv, AllowBlocked: *allowBlocked, MaxConcretize: *maxConc, NoMerge: *noMerge, HashTransparent: *hashT}
 	if prog.entryFunc(*entry) == nil {
 		fmt.Println("no such entry function:", *entry)
